@@ -10,9 +10,9 @@ Open Scope N_scope.
 (** [send] alone: for every layer-4 response, request method, [sanitize_data], error page, TLS-or-plain HTTP/1
     connection and [alt-svc] value, and every Package chain that is oblivious to the version and to connection-level
     headers: the two protocols' answers differ at most in the version and in [hop] headers. *)
-Theorem send_parity : forall checked error_page pkg, pkg_oblivious pkg ->
+Theorem send_parity : forall checked error_page vn pkg, pkg_oblivious pkg ->
   forall secure1 alt m sd r,
-    onorm (send checked error_page pkg H1 secure1 alt m sd r) = onorm (send checked error_page pkg H2 true alt m sd r).
+    onorm (send checked error_page vn pkg H1 secure1 alt m sd r) = onorm (send checked error_page vn pkg H2 true alt m sd r).
 Proof. exact ProtocolsProofs.send_parity. Qed.
 
 (** The same above the shared layer 4, for every host configuration of the model (handlers, cache on/off,
@@ -20,28 +20,28 @@ Proof. exact ProtocolsProofs.send_parity. Qed.
     and every request (conditional, ranged, HEAD, with a body, unsafe path, ...). *)
 Theorem protocol_parity :
   forall hstate compute cache_on ims_on parse_ims sanitize_ok prime negotiate vary_tuple vary_header
-         checked error_page pkg alt sanitize encode hversion,
+         checked error_page vary_rules pkg alt sanitize encode hversion,
     pkg_oblivious pkg ->
     forall secure1 st now r0,
       onorm (answer hstate compute cache_on ims_on parse_ims sanitize_ok prime negotiate vary_tuple vary_header
-                    checked error_page pkg alt sanitize encode hversion H1 secure1 st now r0)
+                    checked error_page vary_rules pkg alt sanitize encode hversion H1 secure1 st now r0)
       = onorm (answer hstate compute cache_on ims_on parse_ims sanitize_ok prime negotiate vary_tuple vary_header
-                      checked error_page pkg alt sanitize encode hversion H2 true st now r0).
+                      checked error_page vary_rules pkg alt sanitize encode hversion H2 true st now r0).
 Proof. exact answer_parity. Qed.
 
 (** HEAD: on either protocol the answer to HEAD is the answer to GET without the body (same status, same headers —
     on HTTP/1 including the GET's [content-length]); hence HEAD over HTTP/1 = HEAD over HTTP/2 = GET over HTTP/2
     minus the body, up to [normalise]. *)
-Theorem head_is_get_without_body : forall checked error_page pkg p secure alt sd r,
-  send checked error_page pkg p secure alt M_HEAD sd r = odrop (send checked error_page pkg p secure alt M_GET sd r).
+Theorem head_is_get_without_body : forall checked error_page vn pkg p secure alt sd r,
+  send checked error_page vn pkg p secure alt M_HEAD sd r = odrop (send checked error_page vn pkg p secure alt M_GET sd r).
 Proof. exact send_head. Qed.
 
-Theorem head_parity : forall checked error_page pkg, pkg_oblivious pkg ->
+Theorem head_parity : forall checked error_page vn pkg, pkg_oblivious pkg ->
   forall secure1 alt sd r,
-    onorm (send checked error_page pkg H1 secure1 alt M_HEAD sd r)
-      = odrop (onorm (send checked error_page pkg H2 true alt M_GET sd r)) /\
-    onorm (send checked error_page pkg H2 true alt M_HEAD sd r)
-      = odrop (onorm (send checked error_page pkg H2 true alt M_GET sd r)).
+    onorm (send checked error_page vn pkg H1 secure1 alt M_HEAD sd r)
+      = odrop (onorm (send checked error_page vn pkg H2 true alt M_GET sd r)) /\
+    onorm (send checked error_page vn pkg H2 true alt M_HEAD sd r)
+      = odrop (onorm (send checked error_page vn pkg H2 true alt M_GET sd r)).
 Proof. exact head_parity_lemma. Qed.
 
 (** the hypothesis of the parity theorems is met by the harness's Package menu *)
@@ -52,8 +52,8 @@ Proof. exact pkg_menu_oblivious. Qed.
 (** The head the (repaired) HTTP/2 arm hands to the h2 crate never contains what h2's [check_headers] refuses: every
     request is answered on HTTP/2 too.  (Before the repair a handler response with e.g. [keep-alive: timeout=5] was
     answered over HTTP/1.1 and never over HTTP/2 — the h2 stream was reset.) *)
-Theorem h2_never_refuses : forall checked error_page pkg p secure alt m sd r,
-  send checked error_page pkg p secure alt m sd r <> Ok WRefused.
+Theorem h2_never_refuses : forall checked error_page vn pkg p secure alt m sd r,
+  send checked error_page vn pkg p secure alt m sd r <> Ok WRefused.
 Proof. exact send_never_refused. Qed.
 
 Section C20_streams.
@@ -83,16 +83,16 @@ Section C20_streams.
       ITS OWN request sent alone to a host with an empty cache.  (The cache's [last-modified] wall-clock stamp is not
       part of the model's response.) *)
   Theorem stream_independence :
-    forall (reqs : list (N * request)) checked error_page pkg alt sanitize encode hversion
+    forall (reqs : list (N * request)) checked error_page vary_rules pkg alt sanitize encode hversion
            c hs now dt sched hs' now',
       Inv vary_tuple cf c -> Forall (fun e => no_ims ims_on prime (snd e)) reqs ->
       forall s r0 rp,
         In (s, r0, rp) (run_streams hstate compute true ims_on parse_ims sanitize_ok prime negotiate vary_tuple
                                     vary_header ((c, hs), open_streams reqs) now dt sched) ->
         In (s, r0) reqs /\
-        stream_wire checked error_page pkg alt sanitize encode hversion (s, r0, rp)
+        stream_wire checked error_page vary_rules pkg alt sanitize encode hversion (s, r0, rp)
         = (s, answer hstate compute true ims_on parse_ims sanitize_ok prime negotiate vary_tuple vary_header
-                     checked error_page pkg alt sanitize encode hversion H2 true ([], hs') now' r0).
+                     checked error_page vary_rules pkg alt sanitize encode hversion H2 true ([], hs') now' r0).
   Proof. exact (streams_wire hstate compute ims_on parse_ims sanitize_ok prime negotiate vary_tuple vary_header cf
                              Hpure contract pref_uniform Herr). Qed.
 End C20_streams.
@@ -117,9 +117,9 @@ Proof. exact streams_exactly_once. Qed.
 (** [send] never panics on what [sanitize_request] hands it (the range part of [sanitize_data] computed from the
     request's Range header, an unsafe path = [Err 400]) for every response whose body length fits a u64 — so neither
     the HTTP/1 connection task nor an HTTP/2 request task dies in it. *)
-Theorem send_never_panics : forall checked error_page pkg p secure alt m path_ok hdr r,
+Theorem send_never_panics : forall checked error_page vn pkg p secure alt m path_ok hdr r,
   N.of_nat (length (rs_body r)) <= u64_max ->
-  send checked error_page pkg p secure alt m (sd_of path_ok hdr) r <> Panic.
+  send checked error_page vn pkg p secure alt m (sd_of path_ok hdr) r <> Panic.
 Proof. exact send_no_panic. Qed.
 
 (** For every host configuration, cache / handler state, clock and EVERY history of requests on one connection —
@@ -130,41 +130,56 @@ Proof. exact send_no_panic. Qed.
     takes part), and the two sequences of answers are equal up to [normalise]. *)
 Theorem history_parity :
   forall hstate compute cache_on ims_on parse_ims sanitize_ok prime negotiate vary_tuple vary_header
-         checked error_page pkg alt sanitize encode hversion wants,
+         checked error_page vary_rules pkg alt sanitize encode hversion wants,
     pkg_oblivious pkg ->
     forall secure1 st now dt bs,
       Forall (fun b => pr_no_request_body (rq_method (b_req b)) = true -> b_len b = 0) bs ->
       Forall (fun w => w <> Panic)
              (answers hstate compute cache_on ims_on parse_ims sanitize_ok prime negotiate vary_tuple vary_header
-                      checked error_page pkg alt sanitize encode hversion H2 true st now dt bs) ->
+                      checked error_page vary_rules pkg alt sanitize encode hversion H2 true st now dt bs) ->
       conn_hist hstate compute cache_on ims_on parse_ims sanitize_ok prime negotiate vary_tuple vary_header
-                checked error_page pkg alt sanitize encode hversion wants H1 true secure1 st now dt bs
+                checked error_page vary_rules pkg alt sanitize encode hversion wants H1 true secure1 st now dt bs
         = map Some (answers hstate compute cache_on ims_on parse_ims sanitize_ok prime negotiate vary_tuple vary_header
-                            checked error_page pkg alt sanitize encode hversion H1 secure1 st now dt bs) /\
+                            checked error_page vary_rules pkg alt sanitize encode hversion H1 secure1 st now dt bs) /\
       conn_hist hstate compute cache_on ims_on parse_ims sanitize_ok prime negotiate vary_tuple vary_header
-                checked error_page pkg alt sanitize encode hversion wants H2 true true st now dt bs
+                checked error_page vary_rules pkg alt sanitize encode hversion wants H2 true true st now dt bs
         = map Some (answers hstate compute cache_on ims_on parse_ims sanitize_ok prime negotiate vary_tuple vary_header
-                            checked error_page pkg alt sanitize encode hversion H2 true st now dt bs) /\
+                            checked error_page vary_rules pkg alt sanitize encode hversion H2 true st now dt bs) /\
       map onorm (answers hstate compute cache_on ims_on parse_ims sanitize_ok prime negotiate vary_tuple vary_header
-                         checked error_page pkg alt sanitize encode hversion H1 secure1 st now dt bs)
+                         checked error_page vary_rules pkg alt sanitize encode hversion H1 secure1 st now dt bs)
         = map onorm (answers hstate compute cache_on ims_on parse_ims sanitize_ok prime negotiate vary_tuple vary_header
-                             checked error_page pkg alt sanitize encode hversion H2 true st now dt bs).
+                             checked error_page vary_rules pkg alt sanitize encode hversion H2 true st now dt bs).
 Proof. exact history_parity_lemma. Qed.
 
 (** The executable history model of the correspondence (components proto.pair / proto.answered) meets its specification
-    component on EVERY input of the domain — ordinary, streamed ([ex_fut], framed) and limiter-answered ([ex_limited], 429)
-    exchanges —: all requests are answered with a response on both connections, equal up to [normalise]. *)
+    component on EVERY input of the domain ([ex_ok]) — ordinary, streamed ([ex_fut]: framed, or of unknown length) and
+    limiter-answered ([ex_limited], 429) exchanges, a 416 page with the [vary] header of any rule set —: all requests are
+    answered with a response on both connections, equal up to [normalise].  An answer that ends the HTTP/1 connection
+    (a streamed body of unknown length, repair 7334433: [ex_closes]) may only be the last of the history
+    ([exs ++ tail], [tail] of at most one exchange). *)
 Theorem pair_history_answered : forall checked ops alt e416,
   Forall (fun o => hop (pkg_op_name o) = false) ops ->
-  forall secure1 exs,
-    Forall (fun e => (pr_no_request_body (ex_method e) = true -> ex_blen e = 0) /\
-                     N.of_nat (length (rs_body (ex_l4 e))) <= u64_max /\
-                     fut_framed (ex_l4 e) (ex_fut e)) exs ->
-    forallb is_resp (pair_hist checked ops alt e416 H1 true secure1 exs) = true /\
-    forallb is_resp (pair_hist checked ops alt e416 H2 true true exs) = true /\
-    map (option_map onorm) (pair_hist checked ops alt e416 H1 true secure1 exs)
-      = map (option_map onorm) (pair_hist checked ops alt e416 H2 true true exs).
+  forall secure1 exs tail,
+    Forall ex_ok (exs ++ tail) -> Forall (fun e => ex_closes e = false) exs -> (length tail <= 1)%nat ->
+    forallb is_resp (pair_hist checked ops alt e416 H1 true secure1 (exs ++ tail)) = true /\
+    forallb is_resp (pair_hist checked ops alt e416 H2 true true (exs ++ tail)) = true /\
+    map (option_map onorm) (pair_hist checked ops alt e416 H1 true secure1 (exs ++ tail))
+      = map (option_map onorm) (pair_hist checked ops alt e416 H2 true true (exs ++ tail)).
 Proof. exact pair_hist_answered. Qed.
+
+(** ... and "only the last" cannot be dropped: after a response whose body ends with the connection the HTTP/1 connection
+    answers nothing more, the HTTP/2 connection does — a difference of the CONNECTIONS (the client opens another one), not of
+    the answers: each request's own answer is the same on both protocols up to [normalise]. *)
+Theorem close_delimited_not_last_refuted : exists checked ops alt e416 exs,
+  Forall ex_ok exs /\
+  map is_resp (pair_hist checked ops alt e416 H1 true true exs) = [true; false] /\
+  map is_resp (pair_hist checked ops alt e416 H2 true true exs) = [true; true] /\
+  map (send_ex checked ops alt e416 H1 true) exs
+    = [Ok (WClosed (mkResp V11 200 [(B "content-type", B "text/plain"); (B "connection", B "close")] (B "first second")));
+       Ok (WResp (mkResp V11 200 [(B "content-type", B "text/plain"); (B "content-length", B "0"); (B "connection", B "keep-alive")] []))] /\
+  map (option_map onorm) (map (fun e => Some (send_ex checked ops alt e416 H1 true e)) exs)
+    = map (option_map onorm) (pair_hist checked ops alt e416 H2 true true exs).
+Proof. exact close_delimited_not_last_refuted_lemma. Qed.
 
 (** The code before the repair dfe4d54 ([drain = false]): false.  PUT with a refused Range and 700 unread body bytes,
     then GET: HTTP/1.1 never answers the GET, HTTP/2 does (replayed on the real code before the repair: known-findings.txt). *)
@@ -190,19 +205,24 @@ Proof. exact pkg_menu_keeps_length. Qed.
 
 (** Without a streaming future the pipe-level model — [send_response(head, false)], the body unless HEAD, [close], and the
     client's framing of what arrives — IS [send]: every theorem about [send] is a theorem about the operations on the pipe. *)
-Theorem send_is_pipe_send : forall checked error_page pkg head_future p secure alt m sd r,
+Theorem send_is_pipe_send : forall checked error_page vn pkg head_future p secure alt m sd r,
   pkg_keeps_length pkg ->
-  send_pipe checked error_page pkg head_future p secure alt m sd r None = send checked error_page pkg p secure alt m sd r.
+  send_pipe checked error_page vn pkg head_future p secure alt m sd r None = send checked error_page vn pkg p secure alt m sd r.
 Proof. exact send_pipe_no_future. Qed.
 
 (** A response with a streaming future (FatResponse::with_future / with_future_and_len: [extensions::stream_body], streamed
     proxy bodies), for every chunk list, method, protocol: the client receives ONE well-framed response whose body is what
-    [Response::body] and then the future wrote, in that order (nothing for HEAD), with the end-to-end headers of the head
-    the Package chain produced — whenever the announced length is the number of bytes written ([fut_framed]). *)
-Theorem streamed_answer : forall checked error_page pkg p secure alt m sd r cs ol,
-  pkg_keeps_length pkg -> fut_framed r (Some (cs, ol)) ->
-  exists v h, send_pipe checked error_page pkg false p secure alt m sd r (Some (cs, ol))
-              = Ok (WResp (mkResp v (rs_status r) h (if m =? M_HEAD then [] else rs_body r ++ concat cs)))
+    [Response::body] (dropped for a 1xx / 204 / 304: [head_only]) and then the future wrote, in that order (nothing for
+    HEAD), with the end-to-end headers of the head the Package chain produced — whenever the announced length is the
+    number of bytes written, or no length is announced at all ([fut_framed]): then, on HTTP/1, the body ends with the
+    connection ([WClosed]; [close_delimited]).  The one exception is transcribed too: a HEAD request answered 101 runs its
+    future (the protocol switch), and bytes it writes would follow the head of a HEAD answer. *)
+Theorem streamed_answer : forall checked error_page vn pkg p secure alt m sd r cs ol,
+  pkg_keeps_length pkg -> fut_framed (head_only r) (Some (cs, ol)) ->
+  exists v h, send_pipe checked error_page vn pkg false p secure alt m sd r (Some (cs, ol))
+              = (if (m =? M_HEAD) && (rs_status r =? 101) && negb (N.of_nat (length (concat cs)) =? 0) then Ok WBroken else
+                 Ok ((if match p with H1 => close_delimited r (Some (cs, ol)) | H2 => false end then WClosed else WResp)
+                       (mkResp v (rs_status r) h (if m =? M_HEAD then [] else rs_body (head_only r) ++ concat cs))))
               /\ v = ensure_version p (rs_version r)
               /\ strip h = strip (pkg v (match ol with
                                          | Some n => ensure_length p n (rs_headers (add_alt_svc secure alt r))
@@ -210,10 +230,10 @@ Theorem streamed_answer : forall checked error_page pkg p secure alt m sd r cs o
 Proof. exact send_pipe_stream. Qed.
 
 (** protocol parity at the level of the pipe, streamed or not *)
-Theorem stream_parity : forall checked error_page pkg secure1 alt m sd r f,
-  pkg_oblivious pkg -> pkg_keeps_length pkg -> fut_framed r f ->
-  onorm (send_pipe checked error_page pkg false H1 secure1 alt m sd r f)
-  = onorm (send_pipe checked error_page pkg false H2 true alt m sd r f).
+Theorem stream_parity : forall checked error_page vn pkg secure1 alt m sd r f,
+  pkg_oblivious pkg -> pkg_keeps_length pkg -> fut_framed (head_only r) f ->
+  onorm (send_pipe checked error_page vn pkg false H1 secure1 alt m sd r f)
+  = onorm (send_pipe checked error_page vn pkg false H2 true alt m sd r f).
 Proof. exact send_pipe_parity. Qed.
 
 (** The code before the repair d63bba7 ([head_future = true]) ran the future for HEAD too: the streamed bytes follow the head
@@ -221,10 +241,10 @@ Proof. exact send_pipe_parity. Qed.
     code before the repair: known-findings.txt). *)
 Theorem head_stream_v0_refuted : exists r cs n,
   fut_framed r (Some (cs, Some n)) /\
-  send_pipe false (fun _ => r) (fun _ h => h) true H1 true None M_HEAD (Ok None) r (Some (cs, Some n)) = Ok WBroken /\
-  send_pipe false (fun _ => r) (fun _ h => h) true H2 true None M_HEAD (Ok None) r (Some (cs, Some n)) = Ok WBroken /\
-  (exists w1 w2, send_pipe false (fun _ => r) (fun _ h => h) false H1 true None M_HEAD (Ok None) r (Some (cs, Some n)) = Ok (WResp w1) /\
-                 send_pipe false (fun _ => r) (fun _ h => h) false H2 true None M_HEAD (Ok None) r (Some (cs, Some n)) = Ok (WResp w2) /\
+  send_pipe false (fun _ => r) [] (fun _ h => h) true H1 true None M_HEAD (Ok None) r (Some (cs, Some n)) = Ok WBroken /\
+  send_pipe false (fun _ => r) [] (fun _ h => h) true H2 true None M_HEAD (Ok None) r (Some (cs, Some n)) = Ok WBroken /\
+  (exists w1 w2, send_pipe false (fun _ => r) [] (fun _ h => h) false H1 true None M_HEAD (Ok None) r (Some (cs, Some n)) = Ok (WResp w1) /\
+                 send_pipe false (fun _ => r) [] (fun _ h => h) false H2 true None M_HEAD (Ok None) r (Some (cs, Some n)) = Ok (WResp w2) /\
                  rs_body w1 = [] /\ rs_body w2 = []).
 Proof. exact head_stream_v0_refuted_lemma. Qed.
 
@@ -232,10 +252,10 @@ Proof. exact head_stream_v0_refuted_lemma. Qed.
     get an empty body for a streamed response (h2 refuses every later write) while the HTTP/1.1 client gets the stream. *)
 Theorem head_end_of_stream_refuted : exists v st h cs,
   concat cs <> [] /\
-  receive H1 M_GET (pipe_send H1 true v st (ensure_length H1 (N.of_nat (length (concat cs))) h) None cs)
-    = WResp (mkResp v st (h1_connection (ensure_length H1 (N.of_nat (length (concat cs))) h)) (concat cs)) /\
-  receive H2 M_GET (pipe_send H2 true v st h None cs) = WResp (mkResp v st (h2_strip h) []) /\
-  receive H2 M_GET (pipe_send H2 false v st h None cs) = WResp (mkResp v st (h2_strip h) (concat cs)).
+  receive H1 M_GET false (pipe_send H1 true v st (ensure_length H1 (N.of_nat (length (concat cs))) h) None cs)
+    = WResp (mkResp v st (h1_connection st (ensure_length H1 (N.of_nat (length (concat cs))) h)) (concat cs)) /\
+  receive H2 M_GET false (pipe_send H2 true v st h None cs) = WResp (mkResp v st (h2_strip h) []) /\
+  receive H2 M_GET false (pipe_send H2 false v st h None cs) = WResp (mkResp v st (h2_strip h) (concat cs)).
 Proof. exact head_end_of_stream_refuted_lemma. Qed.
 
 (** [handle_connection]'s own answers (429 of the request limiter, 409 without a host): for every page and method both
@@ -260,16 +280,24 @@ Proof. intros h. split; [apply h2_strip_accepted | apply strip_h2_strip]. Qed.
     of the body on both protocols. *)
 Theorem read_to_bytes_parity : forall body early conn frames max_len,
   early ++ conn = body -> concat frames = body ->
-  fst (h1_read_to_bytes (mkH1B early conn (N.of_nat (length body))) max_len) = firstn (N.to_nat max_len) body /\
+  fst (h1_read_to_bytes (mkH1B early conn (N.of_nat (length body)) 0) max_len) = firstn (N.to_nat max_len) body /\
   fst (h2_read_to_bytes frames max_len) = firstn (N.to_nat max_len) body.
 Proof. exact read_to_bytes_parity_lemma. Qed.
+
+(** The repaired [Http1Body] (9c56fae / 2820a60 / eedb756, made for C07) keeps an [offset]: a handler that took [off] bytes of
+    the body through [AsyncRead] and then calls [read_to_bytes] gets the bytes that FOLLOW — the rest of the early bytes, then
+    what the client still sends — for every such state in which [content_length - offset] is what is left of the body. *)
+Theorem read_to_bytes_resumes : forall early conn cl off max_len,
+  cl - off = N.of_nat (length (skipn (N.to_nat off) early ++ conn)) ->
+  fst (h1_read_to_bytes (mkH1B early conn cl off) max_len) = firstn (N.to_nat max_len) (skipn (N.to_nat off) early ++ conn).
+Proof. exact h1_read_rest. Qed.
 
 (** Known class h2-body-read-again: the parity ends with the first call.  A handler that calls [read_to_bytes] again after a
     call that hit its limit gets nothing on HTTP/1.1 ("Don't return anything next time we are called!") and the DATA frames
     after the one in which the limit was reached on HTTP/2. *)
 Theorem second_read_refuted : exists body early conn frames l1 l2,
   early ++ conn = body /\ concat frames = body /\
-  h1_reads (mkH1B early conn (N.of_nat (length body))) [l1; l2] <> h2_reads frames [l1; l2].
+  h1_reads (mkH1B early conn (N.of_nat (length body)) 0) [l1; l2] <> h2_reads frames [l1; l2].
 Proof. exact second_read_refuted_lemma. Qed.
 
 (** [extensions::stream_body] (repaired, d675f8a) meets [fut_framed] for every file and Range: the length it announces is the
@@ -283,6 +311,37 @@ Theorem stream_body_v0_refuted : exists file a c, a < c /\
   match stream_plan false file (Some (a, c)) with Some (b, n) => n <> N.of_nat (length b) | None => False end.
 Proof. exact stream_plan_v0_refuted_lemma. Qed.
 
+(** ... and, as repaired on /repo main (d675f8a), it answers a Range as [apply_to_response] answers it for a body in memory
+    ([apply_range] of Model/Range.v, C09's subject — skipped by [SendKind::send] for streams): 416 when the start is at or
+    after the end of the file, else 206, the same [content-range], the same bytes, the length of those bytes. *)
+Theorem stream_body_as_in_memory : forall checked file a c, a < c ->
+  match apply_range checked (Some (a, c)) 200 file with
+  | Ok g => stream_plan true file (Some (a, c)) = Some (r_body g, N.of_nat (length (r_body g))) /\
+            stream_head true file (Some (a, c)) = Some (r_status g, r_content_range g)
+  | Err _ => stream_plan true file (Some (a, c)) = None /\ stream_head true file (Some (a, c)) = None
+  | Panic => False
+  end.
+Proof. exact stream_body_as_in_memory_lemma. Qed.
+
+(** ---- the repairs of [SendKind::send] made for other properties, as they show on both protocols ---- *)
+(** 21f0154: a Range that starts at or after the end of the body is answered with the host's 416 page, which carries the
+    [vary] header of the request's rules whenever it has a body ([send_parity] covers it: [vnames] is quantified). *)
+Theorem range_not_satisfiable_page : forall checked error_page vn a c r,
+  (rs_status r =? 304) = false -> N.of_nat (length (rs_body r)) <= a ->
+  apply_sd checked error_page vn (Ok (Some (a, c))) r = Ok (vary_from_settings vn (error_page 416)) /\
+  (rs_body (error_page 416) <> [] ->
+   assoc H_VARY (rs_headers (vary_from_settings vn (error_page 416))) = Some (vary_value vn) /\
+   rs_body (vary_from_settings vn (error_page 416)) = rs_body (error_page 416)).
+Proof. exact range_not_satisfiable_page_lemma. Qed.
+
+(** 89e2956: a 1xx / 204 / 304 answer to a request without a Range header has no body on either protocol, whatever an
+    extension left on the response. *)
+Theorem bodiless_status_answer : forall checked error_page vn pkg p secure alt m path_ok r w,
+  ends_with_head (rs_status r) = true ->
+  send checked error_page vn pkg p secure alt m (sd_of path_ok None) r = Ok (WResp w) ->
+  rs_body w = [] /\ rs_status w = rs_status r.
+Proof. exact bodiless_status_lemma. Qed.
+
 (** ---- non-vacuity ---- *)
 (** a Package chain like [Extensions::new()]'s (referrer-policy unless present, server always) is oblivious *)
 Example menu_meets_contract :
@@ -295,12 +354,12 @@ Definition ex_resp : resp :=
   mkResp V11 200 [(B "content-type", B "text/plain"); (B "content-encoding", B "gzip")] (B "0123456789").
 Definition ex_pkg := pkg_menu [POrInsert (B "referrer-policy") (B "no-referrer"); PInsert (B "server") (B "Kvarn")].
 Example parity_instance :
-  send false (fun _ => ex_resp) ex_pkg H2 true (Some (B "h3")) M_GET (sanitize_range (Some (B "bytes=2-5"))) ex_resp
+  send false (fun _ => ex_resp) [] ex_pkg H2 true (Some (B "h3")) M_GET (sanitize_range (Some (B "bytes=2-5"))) ex_resp
     = Ok (WResp (mkResp V2 206
             [(B "content-type", B "text/plain"); (B "content-encoding", B "gzip"); (B "alt-svc", B "h3");
              (B "content-range", B "bytes 2-5/10"); (B "referrer-policy", B "no-referrer"); (B "server", B "Kvarn")]
             (B "2345")))
-  /\ send false (fun _ => ex_resp) ex_pkg H1 false (Some (B "h3")) M_GET (sanitize_range (Some (B "bytes=2-5"))) ex_resp
+  /\ send false (fun _ => ex_resp) [] ex_pkg H1 false (Some (B "h3")) M_GET (sanitize_range (Some (B "bytes=2-5"))) ex_resp
     = Ok (WResp (mkResp V11 206
             [(B "content-type", B "text/plain"); (B "content-encoding", B "gzip");
              (B "content-range", B "bytes 2-5/10"); (B "content-length", B "4");
@@ -314,10 +373,10 @@ Proof. split; vm_compute; reflexivity. Qed.
 Example connection_headers_instance :
   let r := mkResp V11 200 [(B "keep-alive", B "timeout=5"); (B "content-length", B "200"); (B "upgrade", B "h2c");
                            (B "content-encoding", B "gzip")] (B "abc") in
-  send false (fun _ => r) ex_pkg H2 true None M_GET (Ok None) r
+  send false (fun _ => r) [] ex_pkg H2 true None M_GET (Ok None) r
     = Ok (WResp (mkResp V2 200 [(B "content-encoding", B "gzip"); (B "accept-ranges", B "bytes"); (B "content-length", B "3");
                                 (B "referrer-policy", B "no-referrer"); (B "server", B "Kvarn")] (B "abc")))
-  /\ send false (fun _ => r) ex_pkg H1 true None M_GET (Ok None) r
+  /\ send false (fun _ => r) [] ex_pkg H1 true None M_GET (Ok None) r
     = Ok (WResp (mkResp V11 200 [(B "keep-alive", B "timeout=5"); (B "upgrade", B "h2c"); (B "content-encoding", B "gzip");
                                  (B "accept-ranges", B "bytes"); (B "content-length", B "3");
                                  (B "referrer-policy", B "no-referrer"); (B "server", B "Kvarn");
@@ -356,7 +415,7 @@ Proof. vm_compute. reflexivity. Qed.
     three, the connection before the repair only the first. *)
 Definition ex_hist (drain : bool) (p : proto) (bs : list breq) : list (option (outcome wreply)) :=
   conn_hist N ex_compute true true (fun _ => None) (fun _ => true) (fun r => r) (fun _ _ => None) (fun _ => [])
-            (fun _ _ => []) false (fun _ => ex_resp) ex_pkg None (fun _ => Ok None) (fun _ _ h b => (h, b)) V11
+            (fun _ _ => []) false (fun _ => ex_resp) (fun _ => []) ex_pkg None (fun _ => Ok None) (fun _ _ h b => (h, b)) V11
             (fun _ _ => None) p drain true ([], 0) 0 1 bs.
 Example history_instance :
   let rq m p := mkReq m p None [] 0 in
@@ -364,7 +423,7 @@ Example history_instance :
   Forall (fun b => pr_no_request_body (rq_method (b_req b)) = true -> b_len b = 0) bs /\
   Forall (fun w => w <> Panic)
          (answers N ex_compute true true (fun _ => None) (fun _ => true) (fun r => r) (fun _ _ => None) (fun _ => [])
-                  (fun _ _ => []) false (fun _ => ex_resp) ex_pkg None (fun _ => Ok None) (fun _ _ h b => (h, b)) V11
+                  (fun _ _ => []) false (fun _ => ex_resp) (fun _ => []) ex_pkg None (fun _ => Ok None) (fun _ _ h b => (h, b)) V11
                   H2 true ([], 0) 0 1 bs) /\
   map is_resp (ex_hist true H1 bs) = [true; true; true] /\
   map is_resp (ex_hist true H2 bs) = [true; true; true] /\
@@ -381,10 +440,10 @@ Example streamed_instance :
   let r := mkResp V11 200 [(B "content-type", B "text/plain")] [] in
   let f := Some ([B "first "; []; B "second"], Some 12) in
   fut_framed r f /\
-  send_pipe false (fun _ => r) ex_pkg false H2 true None M_GET (Ok None) r f
+  send_pipe false (fun _ => r) [] ex_pkg false H2 true None M_GET (Ok None) r f
     = Ok (WResp (mkResp V2 200 [(B "content-type", B "text/plain"); (B "referrer-policy", B "no-referrer"); (B "server", B "Kvarn")]
                         (B "first second"))) /\
-  send_pipe false (fun _ => r) ex_pkg false H1 true None M_GET (Ok None) r f
+  send_pipe false (fun _ => r) [] ex_pkg false H1 true None M_GET (Ok None) r f
     = Ok (WResp (mkResp V11 200 [(B "content-type", B "text/plain"); (B "content-length", B "12");
                                  (B "referrer-policy", B "no-referrer"); (B "server", B "Kvarn"); (B "connection", B "keep-alive")]
                         (B "first second"))).
@@ -395,7 +454,7 @@ Example read_instance :
   let body := map N.of_nat (seq 0 40) in
   firstn 5 body ++ skipn 5 body = body /\
   concat [firstn 16 body; firstn 16 (skipn 16 body); skipn 32 body] = body /\
-  fst (h1_read_to_bytes (mkH1B (firstn 5 body) (skipn 5 body) 40) 20) = map N.of_nat (seq 0 20) /\
+  fst (h1_read_to_bytes (mkH1B (firstn 5 body) (skipn 5 body) 40 0) 20) = map N.of_nat (seq 0 20) /\
   fst (h2_read_to_bytes [firstn 16 body; firstn 16 (skipn 16 body); skipn 32 body] 20) = map N.of_nat (seq 0 20).
 Proof. vm_compute. repeat split. Qed.
 
@@ -405,3 +464,45 @@ Example filter_instance :
   h2_strip [(B "connection", B "x-nominated"); (B "x-nominated", B "v"); (B "te", B "trailers")]
     = [(B "x-nominated", B "v"); (B "te", B "trailers")].
 Proof. split; vm_compute; reflexivity. Qed.
+
+(** a streamed response of UNKNOWN length ([with_future], no [content-length]): HTTP/2 ends the stream, HTTP/1.1 says
+    [connection: close] and ends the connection; the bodies are equal — and the domain of [pair_history_answered] holds it *)
+Example unknown_length_instance :
+  let r := mkResp V11 200 [(B "content-type", B "text/plain")] [] in
+  let f := Some ([B "first "; []; B "second"], None) in
+  fut_framed (head_only r) f /\ close_delimited r f = true /\
+  send_pipe false (fun _ => r) [] ex_pkg false H2 true None M_GET (Ok None) r f
+    = Ok (WResp (mkResp V2 200 [(B "content-type", B "text/plain"); (B "referrer-policy", B "no-referrer"); (B "server", B "Kvarn")]
+                        (B "first second"))) /\
+  send_pipe false (fun _ => r) [] ex_pkg false H1 true None M_GET (Ok None) r f
+    = Ok (WClosed (mkResp V11 200 [(B "content-type", B "text/plain");
+                                   (B "referrer-policy", B "no-referrer"); (B "server", B "Kvarn"); (B "connection", B "close")]
+                          (B "first second"))) /\
+  ex_ok (mkEx M_GET None true r 0 None false f []) /\ ex_closes (mkEx M_GET None true r 0 None false f []) = true.
+Proof.
+  cbv zeta. split; [reflexivity|]. split; [reflexivity|]. split; [vm_compute; reflexivity|]. split; [vm_compute; reflexivity|].
+  split; [|reflexivity]. repeat split; cbn; try lia; try discriminate.
+Qed.
+
+(** the merged repairs on one response: a 204 on which an extension left a body and [transfer-encoding] — HTTP/1.1 states
+    [content-length: 0] and drops [transfer-encoding], neither protocol sends the body; a Range beyond a 10-byte page is
+    answered with the 416 page carrying [vary] (rule names: accept-language) *)
+Example merged_repairs_instance :
+  let r := mkResp V11 204 [(B "transfer-encoding", B "identity"); (B "x-a", B "1")] (B "left over") in
+  send false (fun _ => ex_resp) [] (fun _ h => h) H1 false None M_GET (Ok None) r
+    = Ok (WResp (mkResp V11 204 [(B "x-a", B "1"); (B "content-length", B "0"); (B "connection", B "keep-alive")] [])) /\
+  send false (fun _ => ex_resp) [] (fun _ h => h) H2 true None M_GET (Ok None) r
+    = Ok (WResp (mkResp V2 204 [(B "x-a", B "1")] [])) /\
+  send false (fun _ => ex_resp) [B "accept-language"] (fun _ h => h) H2 true None M_GET (sanitize_range (Some (B "bytes=10-12"))) ex_resp
+    = Ok (WResp (mkResp V2 200 [(B "content-type", B "text/plain"); (B "content-encoding", B "gzip");
+                                (B "vary", B "accept-encoding, range, accept-language")] (B "0123456789"))).
+Proof. cbv zeta. split; [vm_compute; reflexivity|]. split; vm_compute; reflexivity. Qed.
+
+(** [stream_body] on a 6-byte file, Range 2-100 (end exclusive 101): 206, bytes 2..5, [content-range: bytes 2-5/6] — and a
+    reader that already took 3 of 8 body bytes through [AsyncRead] gets bytes 3.. from [read_to_bytes] *)
+Example stream_body_instance :
+  stream_plan true (B "abcdef") (Some (2, 101)) = Some (B "cdef", 4) /\
+  stream_head true (B "abcdef") (Some (2, 101)) = Some (206, Some (B "bytes 2-5/6")) /\
+  stream_head true (B "abcdef") (Some (6, 7)) = None /\
+  fst (h1_read_to_bytes (mkH1B (B "01234") (B "567") 8 3) 4) = B "3456".
+Proof. vm_compute. repeat split. Qed.
